@@ -1,2 +1,179 @@
-/- Property theorems for C15 (placeholder until the proofs land). -/
-import Avt.Spec.C15
+/-
+  Avt.Props.C15 — changed-line reports are sound.
+
+  Vocabulary (Avt/Spec/C15.lean, the definitions the oracle evaluates): `rowCells`, `rowChanged`,
+  `changedRows`, `reportSound`, `flagged`, `dirtyMono`, `dirtySound`.
+
+  Proved, for all states, all sizes, **every** `Function` (no restriction — `coveredDirty` would be
+  constantly `true`, so there is no `_partial` statement):
+  * `C15_step`        `TInv t → t.execute f = some t' → dirtyMono t t' ∧ dirtySound t t'`;
+  * `C15_feedAll`     the same for the whole function stream of an input string (`Vt::feed` per char:
+                      flags accumulate, none is cleared, every changed row is flagged);
+  * `C15_sound`       `feed_str` returns a `Changes.lines` that contains every visible row whose cells
+                      differ between the start and the end of the call;
+  * `C15_sound_resize` so does `resize` (it reports every row of the new screen) — no hypothesis at all;
+  * `C15_reported_iff` `Changes.lines` lists exactly the rows whose flag is set.
+  The proof goes through `StepD` (Avt/Lemmas/C15Step.lean): "mutate, then mark" is modelled as a debt
+  that the following `dirty_lines.add/extend` pays; `Pre` (three clauses of `TInv`: `buffer.rows = rows`,
+  one flag per row, `xtwinops` off) is all that is needed of the invariant and is itself preserved.
+-/
+import Avt.Lemmas.C15Fun
+import Avt.Lemmas.InvTerminal
+
+namespace Avt.Props.C15
+open Avt Avt.Spec.C15 Avt.C15
+
+theorem pre_of_tinv {t : Terminal} (h : TInv t = true) : Pre t :=
+  let k := TOK.of_TInv h
+  ⟨k.brows, k.dirty, k.xt⟩
+
+theorem flagged_iff (t : Terminal) (i : Nat) : flagged t i = true ↔ Flagged t.dirtyLines i := by
+  simp [flagged, Flagged]
+
+/-- the step relation in the oracle's vocabulary -/
+theorem spec_of_step {t t' : Terminal} (p : Pre t) (h : StepD Never t t') :
+    dirtyMono t t' = true ∧ dirtySound t t' = true := by
+  constructor
+  · simp only [dirtyMono, Bool.or_eq_true, bne_iff_ne, ne_eq, List.all_eq_true, List.mem_range,
+      Bool.not_eq_true', ← Bool.not_eq_true, flagged_iff]
+    refine .inr fun i _ => ?_
+    by_cases hf : Flagged t.dirtyLines i
+    · exact .inr (h.keep i hf)
+    · exact .inl hf
+  · simp only [dirtySound, changedRows, List.all_eq_true, List.mem_filter, List.mem_range, rowChanged,
+      bne_iff_ne, ne_eq, flagged_iff, and_imp]
+    intro i hi hne
+    rcases h.sound i (by rw [p.brows, ← h.rows]; exact hi) hne with hf | hf
+    · exact hf
+    · exact hf.elim
+
+/-- **C15_step.**  Every function keeps every flag that is set and flags every row whose cells it
+    changes.  All constructors of `Function` are covered. -/
+theorem C15_step {t t' : Terminal} {f : Function} (hinv : TInv t = true) (h : t.execute f = some t') :
+    dirtyMono t t' = true ∧ dirtySound t t' = true :=
+  spec_of_step (pre_of_tinv hinv) (step_execute (pre_of_tinv hinv) h)
+
+/-- the step relation along the function stream of an input string -/
+theorem step_feedAll {s : List Nat} {v v' : Vt} (p : Pre v.terminal) (h : v.feedAll s = some v') :
+    StepD Never v.terminal v'.terminal := by
+  induction s generalizing v with
+  | nil => simp only [Vt.feedAll, Option.some.injEq] at h; subst h; exact StepD.refl _ _
+  | cons c cs ih =>
+    unfold Vt.feedAll at h
+    split at h
+    · rename_i v1 h1
+      have s1 : StepD Never v.terminal v1.terminal := by
+        unfold Vt.feed at h1
+        split at h1
+        · simp at h1
+        · simp only [Option.some.injEq] at h1; subst h1; exact StepD.refl _ _
+        · simp only [Option.map_eq_some_iff] at h1
+          obtain ⟨t1, ht1, rfl⟩ := h1
+          exact step_execute p ht1
+      exact s1.trans (ih (s1.pre p) h)
+    · simp at h
+
+/-- **C15_feedAll.**  Feeding any string character by character (`Vt::feed`, no `changes()`): no flag
+    is cleared and every row whose cells differ from the start is flagged. -/
+theorem C15_feedAll {s : List Nat} {v v' : Vt} (hinv : TInv v.terminal = true)
+    (h : v.feedAll s = some v') :
+    dirtyMono v.terminal v'.terminal = true ∧ dirtySound v.terminal v'.terminal = true :=
+  spec_of_step (pre_of_tinv hinv) (step_feedAll (pre_of_tinv hinv) h)
+
+/-- **C15_reported_iff.**  `changes()` reports exactly the flagged rows. -/
+theorem C15_reported_iff (t : Terminal) (i : Nat) : i ∈ t.changes.2 ↔ flagged t i = true := by
+  rw [flagged_iff]; exact mem_toVec _ _
+
+theorem gc_view (b : Buffer) : b.gc.1.view = b.view := by
+  unfold Buffer.gc
+  cases b.trimNeeded
+  · rfl
+  · simp only [↓reduceIte]
+    cases b.limit with
+    | none => rfl
+    | some l => dsimp only; split <;> rfl
+
+theorem finish_view (v : Vt) :
+    v.finish.1.terminal.buffer.view = v.terminal.buffer.view ∧ v.finish.1.terminal.rows = v.terminal.rows
+      ∧ v.finish.2.lines = Dirty.toVec v.terminal.dirtyLines :=
+  ⟨gc_view _, rfl, rfl⟩
+
+/-- **C15_sound.**  Every visible row whose cells differ between the start and the end of a
+    `feed_str` call is contained in the `Changes.lines` the call returns. -/
+theorem C15_sound {s : List Nat} {v v' : Vt} {ch : Changes} (hinv : TInv v.terminal = true)
+    (h : v.feedStr s = some (v', ch)) : reportSound v.terminal v'.terminal ch.lines = true := by
+  unfold Vt.feedStr at h
+  simp only [Option.map_eq_some_iff] at h
+  obtain ⟨v1, h1, e⟩ := h
+  have e1 : v' = v1.finish.1 := by rw [e]
+  have e2 : ch = v1.finish.2 := by rw [e]
+  obtain ⟨f1, f2, f3⟩ := finish_view v1
+  have p := pre_of_tinv hinv
+  have st := step_feedAll p h1
+  simp only [reportSound, changedRows, List.all_eq_true, List.mem_filter, List.mem_range, rowChanged,
+    bne_iff_ne, ne_eq, and_imp, List.contains_iff_mem]
+  intro i hi hne
+  rw [e2, f3, mem_toVec]
+  rw [e1, f2] at hi
+  have hne' : cellsAt v1.terminal.buffer i ≠ cellsAt v.terminal.buffer i := by
+    intro heq; apply hne
+    simp only [rowCells, e1, f1]
+    exact heq
+  rcases st.sound i (by rw [p.brows, ← st.rows]; exact hi) hne' with hf | hf
+  · exact hf
+  · exact hf.elim
+
+/-- **C15_sound_resize.**  `resize` reports every row of the new screen; in particular every row whose
+    cells changed or that did not exist before.  No hypothesis on the state is needed. -/
+theorem C15_sound_resize {v v' : Vt} {c r : Nat} {ch : Changes} (h : v.resize c r = some (v', ch)) :
+    (∀ i, i < v'.terminal.rows → i ∈ ch.lines) ∧ reportSound v.terminal v'.terminal ch.lines = true := by
+  unfold Vt.resize at h
+  simp only [Option.map_eq_some_iff] at h
+  obtain ⟨t1, h1, e⟩ := h
+  have e1 : v' = (Vt.finish { v with terminal := t1 }).1 := by rw [e]
+  have e2 : ch = (Vt.finish { v with terminal := t1 }).2 := by rw [e]
+  obtain ⟨_, f2, f3⟩ := finish_view { v with terminal := t1 }
+  have hall : ∀ i, i < t1.rows → Flagged t1.dirtyLines i := by
+    unfold Terminal.resize at h1
+    dsimp only at h1
+    split at h1
+    · simp at h1
+    · rename_i t0 _
+      obtain ⟨a1, _, _, _, a5⟩ := reflow_all h1
+      intro i hi
+      exact a5 i (by rw [← a1]; exact hi)
+  have hrep : ∀ i, i < v'.terminal.rows → i ∈ ch.lines := by
+    intro i hi
+    rw [e2, f3, mem_toVec]
+    rw [e1, f2] at hi
+    exact hall i hi
+  refine ⟨hrep, ?_⟩
+  simp only [reportSound, changedRows, List.all_eq_true, List.mem_filter, List.mem_range, and_imp,
+    List.contains_iff_mem]
+  exact fun i hi _ => hrep i hi
+
+/-! ### a concrete call -/
+
+/-- 5×3 terminal with text, flags cleared (as after a `feed_str`) -/
+def exV : Vt :=
+  let v := (Vt.new 5 3 (some 2)).getD default
+  ((v.feedStr [0x61, 0x62, 0x0d, 0x0a, 0x63]).getD (default, default)).1
+
+/-- "ESC [ 2 ; 2 H x ESC [ 1 J" then LF LF (scrolls): rows 0, 1, 2 change -/
+def exInput : List Nat := [0x1b, 0x5b, 0x32, 0x3b, 0x32, 0x48, 0x78, 0x1b, 0x5b, 0x31, 0x4a, 0x0a, 0x0a, 0x79]
+
+example : TInv exV.terminal = true ∧ exV.terminal.dirtyLines = [false, false, false] := by decide +kernel
+
+example : ∃ v' ch, exV.feedStr exInput = some (v', ch)
+    ∧ changedRows exV.terminal v'.terminal = [0, 1, 2] ∧ ch.lines = [0, 1, 2]
+    ∧ reportSound exV.terminal v'.terminal ch.lines = true :=
+  ⟨((exV.feedStr exInput).getD (default, default)).1, ((exV.feedStr exInput).getD (default, default)).2,
+   by decide +kernel, by decide +kernel, by decide +kernel, by decide +kernel⟩
+
+/-- a call that changes one row only reports (at least) that row -/
+example : ∃ v' ch, exV.feedStr [0x7a] = some (v', ch)
+    ∧ changedRows exV.terminal v'.terminal = [1] ∧ ch.lines = [1] :=
+  ⟨((exV.feedStr [0x7a]).getD (default, default)).1, ((exV.feedStr [0x7a]).getD (default, default)).2,
+   by decide +kernel, by decide +kernel, by decide +kernel⟩
+
+end Avt.Props.C15
